@@ -78,6 +78,10 @@ type script struct {
 	trace  *vh.Writer
 	yield  bool
 	rnd    *rand.Rand
+	// nested dispatch: while item nestAt is handled, another request message is handed to the executor with the
+	// handler's own context (a gateway forwarding to a backend, deferred work): it is a request of its own
+	nestAt int
+	nest   func(ctx context.Context)
 }
 
 func phToken(s string) []int {
@@ -116,11 +120,17 @@ func (handler) HandleOperation(ctx context.Context, req kmip.OperationPayload) (
 	}
 	switch sc.items[i-1].Out {
 	case "success":
+		if sc.nest != nil && i == sc.nestAt {
+			sc.nest(ctx)
+		}
 		return &payloads.GetResponsePayload{UniqueIdentifier: pl.UniqueIdentifier}, nil
 	case "successSetsId":
 		kmipserver.SetIdPlaceholder(ctx, fmt.Sprintf("r%d.i%d", sc.uid, i))
 		if sc.yield {
 			runtime.Gosched()
+		}
+		if sc.nest != nil && i == sc.nestAt {
+			sc.nest(ctx)
 		}
 		return &payloads.GetResponsePayload{UniqueIdentifier: pl.UniqueIdentifier}, nil
 	case "typedError":
@@ -238,8 +248,11 @@ type outcome struct {
 	Panic  string
 }
 
-func execute(ex *kmipserver.BatchExecutor, parent context.Context, rid, uid int, q Req, trace *vh.Writer, yield bool) (out outcome) {
+func execute(ex *kmipserver.BatchExecutor, parent context.Context, rid, uid int, q Req, trace *vh.Writer, yield bool, nest ...func(ctx context.Context)) (out outcome) {
 	sc := &script{rid: rid, uid: uid, items: q.Items, trace: trace, yield: yield}
+	if len(nest) > 0 && len(q.Items) > 0 {
+		sc.nest, sc.nestAt = nest[0], 1+uid%len(q.Items)
+	}
 	ctx := context.WithValue(parent, scriptKey{}, sc)
 	msg := buildRequest(uid, q)
 	if trace != nil {
@@ -398,7 +411,7 @@ func TestTrace(t *testing.T) {
 	K := vh.EnvInt("VERIF_K", 12)
 	maxItems := vh.EnvInt("VERIF_MAXITEMS", 12)
 	ex := newExecutor()
-	slots := G + 1
+	slots := 2*G + 2
 	w.Emit(map[string]any{"ev": "meta", "slots": slots})
 	var mu sync.Mutex
 	uid := 0
@@ -427,6 +440,21 @@ func TestTrace(t *testing.T) {
 	parent := context.WithValue(context.Background(), connKey{}, "conn-1")
 	for n := 0; n < nConn; n++ {
 		run(parent, randReq(r, 5, 25), false)
+	}
+	// nested dispatch: the handler of one item hands another request message to the executor with its own context
+	for n := 0; n < vh.EnvInt("VERIF_NNEST", nConn/4); n++ {
+		outer := randReq(r, 4, 0)
+		for i := range outer.Items {
+			if i%2 == 0 {
+				outer.Items[i].Out = "successSetsId"
+			} else {
+				outer.Items[i].Out = "success"
+			}
+		}
+		inner := randReq(r, 3, 10)
+		s, u := acquire()
+		execute(ex, parent, s, u, outer, w, false, func(ctx context.Context) { run(ctx, inner, false) })
+		release(s)
 	}
 	var wg sync.WaitGroup
 	for g := 0; g < G; g++ {
